@@ -10,6 +10,7 @@ import (
 
 	"verifsa/internal/core"
 	"verifsa/internal/paths"
+	"verifsa/internal/prover"
 )
 
 // headerReaderRules (C03-HDRREAD): the encoding/binary based header parsers of cmpp and smgp. "When the input ends before
@@ -35,81 +36,118 @@ func headerReaderRules(c *core.Ctx) {
 				}
 			}
 		}
-		ps, err := paths.Enumerate(fn, paths.Config{})
-		if err != nil {
-			c.Unknown("C03-HDRREAD", key, pos, "path enumeration failed: "+err.Error())
-			continue
-		}
+		// Dominance form (so that a parser that reads its words in a loop over a table of field addresses is judged too):
+		// every read's outcome is tested right behind it and its failure leaves with a non-nil error; a success return is
+		// reached only over the success edge of every read outside a loop, and only through the regular exit of a loop
+		// whose other exits are those failure returns.
 		var problems []string
-		for _, p := range ps {
-			if p.Aborted != "" {
-				problems = append(problems, "path not analysable: "+p.Aborted)
-				continue
+		pv := prover.New(fn)
+		inLoopOf := func(b *ssa.BasicBlock) *prover.Loop {
+			for _, l := range pv.Loops() {
+				if l.Blocks[b] {
+					return l
+				}
 			}
-			if len(p.Results) != 2 {
-				continue
+			return nil
+		}
+		failsWithError := func(blk *ssa.BasicBlock) bool {
+			for i := 0; i < 4 && blk != nil; i++ {
+				if ret, ok := blk.Instrs[len(blk.Instrs)-1].(*ssa.Return); ok {
+					return len(ret.Results) == 2 && !paths.IsNilConst(ret.Results[1])
+				}
+				if len(blk.Succs) != 1 {
+					return false
+				}
+				blk = blk.Succs[0]
 			}
-			var reads []*ssa.Call
-			failed, passed := map[*ssa.Call]bool{}, map[*ssa.Call]bool{}
-			for _, e := range p.Events {
-				switch e.Kind {
-				case paths.EvInstr:
-					if call, ok := e.Instr.(*ssa.Call); ok && calleeName(call) == "encoding/binary.Read" {
-						reads = append(reads, call)
-					}
-				case paths.EvBranch:
-					bo, ok := e.Cond.(*ssa.BinOp)
-					if !ok || (bo.Op != token.EQL && bo.Op != token.NEQ) {
+			return false
+		}
+		type readTest struct {
+			call *ssa.Call
+			blk  *ssa.BasicBlock // the block that ends in the test
+			okTo *ssa.BasicBlock // successor taken when the read succeeded
+		}
+		var tests []readTest
+		for _, b := range fn.Blocks {
+			for _, ins := range b.Instrs {
+				call, ok := ins.(*ssa.Call)
+				if !ok || calleeName(call) != "encoding/binary.Read" {
+					continue
+				}
+				ifi, isIf := b.Instrs[len(b.Instrs)-1].(*ssa.If)
+				var bo *ssa.BinOp
+				if isIf {
+					bo, _ = ifi.Cond.(*ssa.BinOp)
+				}
+				tested := bo != nil && (bo.Op == token.NEQ || bo.Op == token.EQL) &&
+					((bo.X == ssa.Value(call) && paths.IsNilConst(bo.Y)) || (bo.Y == ssa.Value(call) && paths.IsNilConst(bo.X)))
+				if !tested {
+					// `return h, binary.Read(...)` as the last read: its outcome is the function's
+					if ret, isRet := b.Instrs[len(b.Instrs)-1].(*ssa.Return); isRet && len(ret.Results) == 2 && ret.Results[1] == ssa.Value(call) {
+						tests = append(tests, readTest{call, b, nil})
 						continue
 					}
-					for _, pair := range [][2]ssa.Value{{bo.X, bo.Y}, {bo.Y, bo.X}} {
-						call, isCall := e.Resolve(pair[0]).(*ssa.Call)
-						if !isCall || calleeName(call) != "encoding/binary.Read" || !paths.IsNilConst(pair[1]) {
-							continue
-						}
-						if (bo.Op == token.NEQ) == e.Taken {
-							failed[call] = true
-						} else {
-							passed[call] = true
-						}
-					}
+					problems = append(problems, "the outcome of the read at "+c.Prog.Pos(call.Pos())+" is not looked at before the parser goes on")
+					continue
 				}
+				failTo, okTo := b.Succs[0], b.Succs[1]
+				if bo.Op == token.EQL {
+					failTo, okTo = okTo, failTo
+				}
+				if !failsWithError(failTo) {
+					problems = append(problems, "a failed read at "+c.Prog.Pos(call.Pos())+" does not end in an error: a truncated header is accepted")
+				}
+				tests = append(tests, readTest{call, b, okTo})
 			}
-			success := paths.IsNilConst(p.Results[1])
-			if !success {
-				// the error returned may itself be the result of the last read (`return h, binary.Read(...)`)
-				if call, isCall := p.Results[1].(*ssa.Call); isCall && calleeName(call) == "encoding/binary.Read" {
-					passed[call] = true
-					if len(reads) == words {
-						allPassed := true
-						for _, r := range reads {
-							if !passed[r] {
-								allPassed = false
+		}
+		nSuccess := 0
+		for _, b := range fn.Blocks {
+			ret, ok := b.Instrs[len(b.Instrs)-1].(*ssa.Return)
+			if !ok || len(ret.Results) != 2 || !paths.IsNilConst(ret.Results[1]) {
+				continue
+			}
+			nSuccess++
+			for _, t := range tests {
+				if t.okTo == nil {
+					continue // the read whose outcome is returned as it is
+				}
+				if l := inLoopOf(t.blk); l != nil {
+					// reads in a loop: success only through the header's own exit, every other exit being a failure return
+					if l.Blocks[b] || !l.Header.Dominates(b) {
+						problems = append(problems, "success is answered at "+c.Prog.Pos(ret.Pos())+" from inside or beside the loop that reads the words")
+					}
+					for x := range l.Blocks {
+						for _, sx := range x.Succs {
+							if !l.Blocks[sx] && x != l.Header && !failsWithError(sx) {
+								problems = append(problems, "the reading loop is left at "+c.Prog.Pos(x.Instrs[len(x.Instrs)-1].Pos())+" other than by its regular end or a failure: words can be skipped")
 							}
 						}
-						if allPassed {
-							continue
-						}
 					}
+					continue
 				}
-			}
-			for _, r := range reads {
-				if !failed[r] && !passed[r] {
-					problems = append(problems, "the outcome of the read at "+c.Prog.Pos(r.Pos())+" is not looked at before the parser goes on")
-				}
-			}
-			if success {
-				if len(reads) != words {
-					problems = append(problems, fmt.Sprintf("success is answered after %d of %d header words were read", len(reads), words))
-				}
-				for _, r := range reads {
-					if failed[r] {
-						problems = append(problems, "success is answered on a path where the read at "+c.Prog.Pos(r.Pos())+" failed: a truncated header is accepted")
-					}
+				if !(len(t.okTo.Preds) == 1 && (t.okTo == b || t.okTo.Dominates(b))) {
+					problems = append(problems, "success is answered at "+c.Prog.Pos(ret.Pos())+" on a path that does not pass the successful outcome of the read at "+c.Prog.Pos(t.call.Pos()))
 				}
 			}
 		}
-		c.Decide(len(problems) == 0, "C03-HDRREAD", key, pos, fmt.Sprintf("%d paths: a failed read ends in an error, success only after all %d words were read and found good", len(ps), words), strings.Join(dedup(problems), "; "))
+		for _, t := range tests {
+			if t.okTo == nil && len(tests) > 0 {
+				// the directly returned read must come after all others succeeded
+				for _, o := range tests {
+					if o.okTo != nil && !(len(o.okTo.Preds) == 1 && (o.okTo == t.blk || o.okTo.Dominates(t.blk))) && inLoopOf(o.blk) == nil {
+						problems = append(problems, "the last read is not reached only after the earlier ones succeeded")
+					}
+				}
+				nSuccess++
+			}
+		}
+		if nSuccess == 0 {
+			problems = append(problems, "no path answers success")
+		}
+		if len(tests) != words {
+			problems = append(problems, fmt.Sprintf("%d of %d reads are judged", len(tests), words))
+		}
+		c.Decide(len(problems) == 0, "C03-HDRREAD", key, pos, fmt.Sprintf("%d reads: a failed read ends in an error, success only after every read was found good", words), strings.Join(dedup(problems), "; "))
 
 		// NewHeaderFromBytes: refuses iff len(d) < header size, otherwise answers with the reader's result
 		fb := c.Prog.SSAFunc(c.Prog.LookupFunc(rel, "NewHeaderFromBytes"))
